@@ -199,13 +199,25 @@ pub fn guard<T>(f: impl FnOnce() -> T) -> Result<T, String> {
     }
 }
 
+/// A stretch of execution visible to the runaway watchdog: entered here, left on drop
+/// (also when unwinding). For drivers that catch panics themselves.
+pub struct WatchScope(());
+
+impl WatchScope {
+    pub fn enter() -> WatchScope {
+        MY_SLOT.with(|s| { s.depth.fetch_add(1, Ordering::Relaxed); s.generation.fetch_add(1, Ordering::Relaxed); });
+        WatchScope(())
+    }
+}
+
+impl Drop for WatchScope {
+    fn drop(&mut self) { MY_SLOT.with(|s| { s.generation.fetch_add(1, Ordering::Relaxed); s.depth.fetch_sub(1, Ordering::Relaxed); }); }
+}
+
 /// Makes a call visible to the runaway watchdog without catching unwinds
 /// (for drivers that run library code on an executor which catches panics itself).
 pub fn watched<T>(f: impl FnOnce() -> T) -> T {
-    struct Exit;
-    impl Drop for Exit { fn drop(&mut self) { MY_SLOT.with(|s| { s.generation.fetch_add(1, Ordering::Relaxed); s.depth.fetch_sub(1, Ordering::Relaxed); }); } }
-    MY_SLOT.with(|s| { s.depth.fetch_add(1, Ordering::Relaxed); s.generation.fetch_add(1, Ordering::Relaxed); });
-    let _exit = Exit;
+    let _scope = WatchScope::enter();
     f()
 }
 
